@@ -958,6 +958,7 @@ let rec take n0 l =
 
 type frame_res =
 | FEof
+| FTorn
 | FFail
 | FRec of bool * n * bytes * bytes
 
@@ -974,7 +975,9 @@ let frame x =
     else (match take (N.to_nat size) x1 with
           | Some p0 -> let (buf, rest) = p0 in FRec (is_deps, size, buf, rest)
           | None -> FFail)
-  | None -> FEof
+  | None -> (match x with
+             | [] -> FEof
+             | _ :: _ -> FTorn)
 
 (** val words_of : bytes -> n list **)
 
@@ -1136,22 +1139,28 @@ let needs_recompaction total unique =
   (&&) (N.ltb (Npos (XO (XO (XO (XI (XO (XI (XI (XI (XI XH)))))))))) total)
     (N.ltb (N.mul unique (Npos (XI XH))) total)
 
-(** val load_loop : bool -> nat -> lstate -> bytes -> dload **)
+(** val load_loop : bool -> bool -> nat -> lstate -> bytes -> dload **)
 
-let rec load_loop strict_align fuel st x =
+let rec load_loop old strict_align fuel st x =
   match fuel with
   | O -> DFuel
   | S fuel' ->
     (match frame x with
      | FEof -> DOk (st.l_s, None, (needs_recompaction st.l_total st.l_unique))
+     | FTorn ->
+       if old
+       then DOk (st.l_s, None, (needs_recompaction st.l_total st.l_unique))
+       else DOk (st.l_s, (Some (N.to_nat st.l_off)),
+              (needs_recompaction st.l_total st.l_unique))
      | FFail -> DOk (st.l_s, (Some (N.to_nat st.l_off)), false)
      | FRec (is_deps, size, buf, rest) ->
        (match decode strict_align st.l_s.d_paths is_deps size buf with
         | RFail -> DOk (st.l_s, (Some (N.to_nat st.l_off)), false)
         | RUnsafe why -> DUnsafe why
-        | RPath p -> load_loop strict_align fuel' (l_add_path st p size) rest
+        | RPath p ->
+          load_loop old strict_align fuel' (l_add_path st p size) rest
         | RDeps (o, m, ins) ->
-          load_loop strict_align fuel' (l_add_deps st o m ins size) rest))
+          load_loop old strict_align fuel' (l_add_deps st o m ins size) rest))
 
 (** val l_init : lstate **)
 
@@ -1159,17 +1168,22 @@ let l_init =
   { l_s = d_empty; l_off = (Npos (XO (XO (XO (XO XH))))); l_total = N0;
     l_unique = N0 }
 
-(** val load_deps_gen : bool -> bytes -> dload **)
+(** val load_deps_ver : bool -> bool -> bytes -> dload **)
 
-let load_deps_gen strict_align file =
+let load_deps_ver old strict_align file =
   match take (S (S (S (S (S (S (S (S (S (S (S (S (S (S (S (S
           O)))))))))))))))) file with
   | Some p ->
     let (h, x) = p in
     if bytes_eqb h deps_header
-    then load_loop strict_align (S (length x)) l_init x
+    then load_loop old strict_align (S (length x)) l_init x
     else DBadHeader
   | None -> DBadHeader
+
+(** val load_deps_gen : bool -> bytes -> dload **)
+
+let load_deps_gen strict_align file =
+  load_deps_ver false strict_align file
 
 (** val load_deps : bytes -> dload **)
 
@@ -1321,11 +1335,11 @@ let recompact_r live s =
           if b then COk (s2, (app deps_header w)) else CFail
         | None -> CUnsafe (S (S O)))
 
-(** val session_gen :
-    bool -> (bytes -> bool) -> bytes -> dop list -> bytes **)
+(** val session_ver :
+    bool -> bool -> (bytes -> bool) -> bytes -> dop list -> bytes **)
 
-let session_gen strict_align live file ops =
-  match load_deps_gen strict_align file with
+let session_ver old strict_align live file ops =
+  match load_deps_ver old strict_align file with
   | DBadHeader ->
     let (p, _) = run_ops d_empty ops in let (_, w) = p in app deps_header w
   | DOk (s, tr, nr) ->
@@ -1339,6 +1353,12 @@ let session_gen strict_align live file ops =
           | _ -> base)
     else let (p, _) = run_ops s ops in let (_, w) = p in app base w
   | _ -> file
+
+(** val session_gen :
+    bool -> (bytes -> bool) -> bytes -> dop list -> bytes **)
+
+let session_gen strict_align live file ops =
+  session_ver false strict_align live file ops
 
 (** val session : (bytes -> bool) -> bytes -> dop list -> bytes **)
 
